@@ -150,7 +150,7 @@ package conn
 //@   trusted
 //@   assigns except(conn.Channel)
 //@ extern protoio.Reader.ReadMsg
-//@   assigns nothing
+//@   assigns except(conn)
 //@ extern flowrate.Monitor.Limit
 //@   assigns nothing
 //@ extern flowrate.Monitor.Update
@@ -162,8 +162,8 @@ package conn
 //@ extern log.Logger.Error
 //@   assigns nothing
 //@ func MConnection.recvRoutine
-//@   requires cap: forall(k, (has(c.channelsIdx, k) && c.channelsIdx[k] != nil) ==> len(c.channelsIdx[k].recving) <= c.channelsIdx[k].desc.RecvMessageCapacity)
-//@   loop 1 invariant cap: forall(k, (has(c.channelsIdx, k) && c.channelsIdx[k] != nil) ==> len(c.channelsIdx[k].recving) <= c.channelsIdx[k].desc.RecvMessageCapacity)
+//@   requires cap: forall(r, len(cast(*Channel, r).recving) <= cast(*Channel, r).desc.RecvMessageCapacity)
+//@   loop 1 invariant cap: forall(r, len(cast(*Channel, r).recving) <= cast(*Channel, r).desc.RecvMessageCapacity)
 //@   loop 2 invariant t: true
 //@   atcall MConnection.onReceive known: has(c.channelsIdx, arg0) && c.channelsIdx[arg0] != nil && len(arg1) <= c.channelsIdx[arg0].desc.RecvMessageCapacity
 //@   atcall MConnection.onReceive exact: arg0 == pkt.PacketMsg.ChannelID
